@@ -501,6 +501,48 @@ func ruleC05Attribution(p *Prog, r *Res) {
 			}
 			return true
 		})
+		// a loop in front of the literal that steps a variable of the expression and is left by `break`:
+		// `i := len(s.Packets); for { i--; … break }; … PacketIndex: uint64(i)`
+		if found == nil {
+			inspectShallow(f.Body(), func(x ast.Node) bool {
+				fs, ok := x.(*ast.ForStmt)
+				if !ok || fs.End() > lit.Pos() {
+					return true
+				}
+				steps := false
+				check := func(e ast.Expr) {
+					if o := identObj(info, e); o != nil && mentions(info, expr, o) {
+						steps = true
+					}
+				}
+				visit := func(y ast.Node) bool {
+					switch st := y.(type) {
+					case *ast.IncDecStmt:
+						check(st.X)
+					case *ast.AssignStmt:
+						for _, l := range st.Lhs {
+							check(l)
+						}
+					}
+					return true
+				}
+				ast.Inspect(fs.Body, visit)
+				if fs.Post != nil {
+					ast.Inspect(fs.Post, visit)
+				}
+				hasBreak := false
+				ast.Inspect(fs.Body, func(y ast.Node) bool {
+					if br, ok := y.(*ast.BranchStmt); ok && br.Tok == token.BREAK {
+						hasBreak = true
+					}
+					return true
+				})
+				if steps && hasBreak {
+					found, where = loopKeys(fs), f.Key()
+				}
+				return true
+			})
+		}
 		if found != nil || depth > 3 {
 			return found, where
 		}
